@@ -1,12 +1,15 @@
 import BareProofs.C13
 import BareModel.ExprParse
+import BareProofs.C02Lemmas
 
 /-!
 # C13Bridge — helper lemmas: the two number scanners, piece by piece
 
 `ExprScan.scanNumber` (the literal scanner the expression parser model uses) and `NumText.scanTok true` (C13's model of
-`_R_EXPR_NUMBER`) are compared component by component: white space class, sign, integer digits, fraction, exponent, and
-the value (`ExprScan.decVal` against `NumText.Tok.val`).  The property theorems are in `BareProofs/C13Bridge.lean`.
+`_R_EXPR_NUMBER`) are compared component by component: white space class, digit class and digit value (two independently
+frozen Unicode tables: the 64 runs of `Rx.digitRanges` against the 67 zero digits of `NumText.uniZeros`), sign, integer
+digits, fraction, exponent, and the value (`ExprScan.decVal` against `NumText.Tok.val`); and `float()` on the text of a
+literal with ANY Unicode decimal digits (`floatText_text_uni`).  The property theorems are in `BareProofs/C13Bridge.lean`.
 -/
 set_option linter.unusedSimpArgs false
 set_option linter.unusedVariables false
@@ -25,83 +28,306 @@ theorem isPySpace_eq (c : Char) : ExprScan.isPySpace c = isReSpace c := by
 
 theorem isPySpace_fun : ExprScan.isPySpace = isReSpace := funext isPySpace_eq
 
-/-- `ExprScan.isDigit` is the ASCII part of `\d` -/
-theorem isDigit_eq_ascii (c : Char) : ExprScan.isDigit c = isAsciiDigit c := by
-  simp [ExprScan.isDigit, isAsciiDigit]
+/-- `NumText.decDigit?` on code points -/
+def decDigitN? (n : Nat) : Option Nat :=
+  if 48 ≤ n ∧ n ≤ 57 then some (n - 48)
+  else if n < 128 then none
+  else (uniZeros.find? (fun z => decide (z ≤ n ∧ n < z + 10))).map (fun z => n - z)
 
-/-- every character of the list that regex `\d` accepts is an ASCII digit (the domain on which the two scanners agree) -/
-def DigitsAscii (l : List Char) : Prop := ∀ c ∈ l, isDig c = true → isAsciiDigit c = true
+theorem decDigit?_eq (c : Char) : decDigit? c = decDigitN? c.toNat := by
+  simp [decDigit?, decDigitN?, isAsciiDigit]
 
-theorem DigitsAscii.tail {c : Char} {l : List Char} (h : DigitsAscii (c :: l)) : DigitsAscii l :=
-  fun d hd => h d (List.mem_cons_of_mem _ hd)
+/-- table fact: every code point of every run of `Rx.digitRanges` is a `NumText` digit whose value is its offset in the run
+modulo 10 (680 code points) -/
+theorem runs_are_digits :
+    Rx.digitRanges.all (fun r => (List.range (r.2 - r.1 + 1)).all (fun k => decDigitN? (r.1 + k) == some (k % 10))) = true := by
+  decide +kernel
 
-theorem DigitsAscii.of_subset {l m : List Char} (h : DigitsAscii l) (hs : ∀ c ∈ m, c ∈ l) : DigitsAscii m :=
-  fun d hd => h d (hs d hd)
+/-- table fact: the ten code points from `'0'` and from every zero digit of `NumText.uniZeros` lie in the runs of
+`Rx.digitRanges` -/
+theorem zeros_in_runs : ((48 : Nat) :: uniZeros).all (fun z => (List.range 10).all (fun k => Rx.isDigitN (z + k))) = true := by
+  decide +kernel
 
-theorem DigitsAscii.dropWhile {l : List Char} (h : DigitsAscii l) (p : Char → Bool) : DigitsAscii (l.dropWhile p) :=
-  h.of_subset (fun c hc => (List.dropWhile_sublist p).subset hc)
+theorem run_digit {r : Nat × Nat} (hr : r ∈ Rx.digitRanges) {n : Nat} (h1 : r.1 ≤ n) (h2 : n ≤ r.2) :
+    decDigitN? n = some ((n - r.1) % 10) := by
+  have h := List.all_eq_true.mp runs_are_digits r hr
+  have h' := List.all_eq_true.mp h (n - r.1) (List.mem_range.mpr (by omega))
+  have e : r.1 + (n - r.1) = n := by omega
+  rw [e] at h'
+  exact beq_iff_eq.mp h'
 
-theorem isDig_eq_isDigit {l : List Char} (h : DigitsAscii l) : ∀ c ∈ l, isDig c = ExprScan.isDigit c := by
-  intro c hc
-  rw [isDigit_eq_ascii]
-  cases hd : isDig c with
-  | true => exact (h c hc hd).symm
+theorem decDigitN?_zero {n d : Nat} (h : decDigitN? n = some d) : ∃ z ∈ (48 : Nat) :: uniZeros, z ≤ n ∧ n < z + 10 ∧ d = n - z := by
+  unfold decDigitN? at h
+  split at h
+  · rename_i ha
+    exact ⟨48, by simp, by omega, by omega, by simpa using h.symm⟩
+  · split at h
+    · cases h
+    · cases hf : uniZeros.find? (fun z => decide (z ≤ n ∧ n < z + 10)) with
+      | none => rw [hf] at h; cases h
+      | some z =>
+        have hm := List.mem_of_find?_eq_some hf
+        have hp := List.find?_some hf
+        simp only [decide_eq_true_eq] at hp
+        rw [hf] at h
+        simp only [Option.map_some, Option.some.injEq] at h
+        exact ⟨z, List.mem_cons_of_mem _ hm, hp.1, hp.2, h.symm⟩
+
+/-- **one digit class**: `ExprScan.isDigit` (table `Rx.digitRanges`) and `NumText.isDig` (table `NumText.uniZeros`) are the same
+set of characters -/
+theorem isDigit_eq_isDig (c : Char) : ExprScan.isDigit c = isDig c := by
+  cases hd : ExprScan.isDigit c with
+  | true =>
+    obtain ⟨r, hr, h1, h2⟩ := C02.isDigit_iff.mp hd
+    simp [isDig, decDigit?_eq, run_digit hr h1 h2]
   | false =>
-    cases ha : isAsciiDigit c with
+    cases hg : isDig c with
     | false => rfl
-    | true => rw [isDig_of_ascii ha] at hd; cases hd
+    | true =>
+      exfalso
+      unfold isDig at hg
+      rw [decDigit?_eq] at hg
+      obtain ⟨d, hd'⟩ := Option.isSome_iff_exists.mp hg
+      obtain ⟨z, hz, h1, h2, _⟩ := decDigitN?_zero hd'
+      have h := List.all_eq_true.mp zeros_in_runs z hz
+      have h' := List.all_eq_true.mp h (c.toNat - z) (List.mem_range.mpr (by omega))
+      have e : z + (c.toNat - z) = c.toNat := by omega
+      rw [e] at h'
+      simp only [ExprScan.isDigit, Rx.isDigitU] at hd
+      rw [hd] at h'; cases h'
 
-theorem takeWhile_congr' {p q : Char → Bool} : ∀ {l : List Char}, (∀ c ∈ l, p c = q c) → l.takeWhile p = l.takeWhile q
-  | [], _ => rfl
-  | c :: l, h => by
-    have hc := h c (List.mem_cons_self ..)
-    have ih := takeWhile_congr' (l := l) (fun d hd => h d (List.mem_cons_of_mem _ hd))
-    simp only [List.takeWhile_cons, hc, ih]
+theorem isDigit_fun : ExprScan.isDigit = isDig := funext isDigit_eq_isDig
 
-theorem dropWhile_congr' {p q : Char → Bool} : ∀ {l : List Char}, (∀ c ∈ l, p c = q c) → l.dropWhile p = l.dropWhile q
-  | [], _ => rfl
-  | c :: l, h => by
-    have hc := h c (List.mem_cons_self ..)
-    have ih := dropWhile_congr' (l := l) (fun d hd => h d (List.mem_cons_of_mem _ hd))
-    simp only [List.dropWhile_cons, hc, ih]
+/-- **one digit value**: offset in the run modulo 10 = offset from the zero digit of the block -/
+theorem digitVal_eq_digVal (c : Char) : ExprScan.digitVal c = digVal c := by
+  unfold ExprScan.digitVal
+  split
+  · rename_i r hf
+    have hm := List.mem_of_find?_eq_some hf
+    have hp := List.find?_some hf
+    simp only [Bool.and_eq_true, decide_eq_true_eq] at hp
+    simp [digVal, decDigit?_eq, run_digit hm hp.1 hp.2]
+  · rename_i hf
+    have hd : ExprScan.isDigit c = false := by
+      cases h : ExprScan.isDigit c with
+      | false => rfl
+      | true =>
+        obtain ⟨r, hr, h1, h2⟩ := C02.isDigit_iff.mp h
+        have := List.find?_eq_none.mp hf r hr
+        simp [h1, h2] at this
+    rw [isDigit_eq_isDig] at hd
+    unfold isDig at hd
+    unfold digVal
+    cases h : decDigit? c with
+    | none => rfl
+    | some d => rw [h] at hd; cases hd
 
-theorem tw_digits {l : List Char} (h : DigitsAscii l) : l.takeWhile ExprScan.isDigit = l.takeWhile isDig :=
-  (takeWhile_congr' (isDig_eq_isDigit h)).symm
+theorem tw_digits (l : List Char) : l.takeWhile ExprScan.isDigit = l.takeWhile isDig := by rw [isDigit_fun]
 
-theorem dw_digits {l : List Char} (h : DigitsAscii l) : l.dropWhile ExprScan.isDigit = l.dropWhile isDig :=
-  (dropWhile_congr' (isDig_eq_isDigit h)).symm
-
-theorem ascii_takeWhile {l : List Char} (h : DigitsAscii l) : AsciiDigs (l.takeWhile isDig) := by
-  intro c hc
-  exact h c ((List.takeWhile_sublist isDig).subset hc) (mem_takeWhile_imp c hc)
+theorem dw_digits (l : List Char) : l.dropWhile ExprScan.isDigit = l.dropWhile isDig := by rw [isDigit_fun]
 
 /-! ## digit values -/
 
-theorem digVal_ascii {c : Char} (h : isAsciiDigit c = true) : digVal c = c.toNat - 48 := by
-  simp [digVal, decDigit?, h]
-
-theorem digitsVal_foldl {l : List Char} (h : AsciiDigs l) (a : Nat) :
-    l.foldl (fun a c => 10 * a + (c.toNat - 48)) a = l.foldl (fun a c => a * 10 + digVal c) a := by
+theorem digitsVal_foldl (l : List Char) (a : Nat) :
+    l.foldl (fun a c => 10 * a + ExprScan.digitVal c) a = l.foldl (fun a c => a * 10 + digVal c) a := by
   induction l generalizing a with
   | nil => rfl
   | cons c l ih =>
     simp only [List.foldl_cons]
-    rw [digVal_ascii (h c (List.mem_cons_self ..)), Nat.mul_comm 10 a]
-    exact ih (fun d hd => h d (List.mem_cons_of_mem _ hd)) _
+    rw [digitVal_eq_digVal, Nat.mul_comm 10 a]
+    exact ih _
 
-/-- on ASCII digits the two digit-string values are the same function -/
-theorem digitsVal_eq_natOf {l : List Char} (h : AsciiDigs l) : ExprScan.digitsVal l = natOf l :=
-  digitsVal_foldl h 0
+/-- the two digit-string values are the same function -/
+theorem digitsVal_eq_natOf (l : List Char) : ExprScan.digitsVal l = natOf l :=
+  digitsVal_foldl l 0
 
 theorem natOf_append (a b : List Char) : natOf (a ++ b) = natOf a * 10 ^ b.length + natOf b := by
   simp only [natOf, List.foldl_append]
   exact natOf_foldl b _
 
-theorem asciiDigs_append {a b : List Char} (ha : AsciiDigs a) (hb : AsciiDigs b) : AsciiDigs (a ++ b) := by
+/-! ## `float()` on the text of a literal with Unicode decimal digits -/
+
+theorem digVal_lt {c : Char} (h : isDig c = true) : digVal c < 10 ∧ decDigit? c = some (digVal c) := by
+  unfold isDig at h
+  obtain ⟨d, hd⟩ := Option.isSome_iff_exists.mp h
+  have hd' := hd
+  rw [decDigit?_eq] at hd'
+  obtain ⟨z, _, h1, h2, e⟩ := decDigitN?_zero hd'
+  simp only [digVal, hd, Option.getD_some]
+  exact ⟨by omega, trivial⟩
+
+/-- the ASCII digit `_PyUnicode_TransformDecimalAndSpaceToASCII` writes for a decimal digit -/
+def ascOf (c : Char) : Char := Char.ofNat (48 + digVal c)
+
+/-- what the transformation does to one character of a literal -/
+def fixChar (c : Char) : Char := if isDig c then ascOf c else c
+
+theorem ascOf_ascii {c : Char} (h : isDig c = true) : isAsciiDigit (ascOf c) = true ∧ digVal (ascOf c) = digVal c :=
+  ⟨ascii_digitChar _ (digVal_lt h).1, digVal_digitChar _ (digVal_lt h).1⟩
+
+theorem ascOf_of_ascii {c : Char} (h : isAsciiDigit c = true) : ascOf c = c := by
+  have hv : digVal c = c.toNat - 48 := by simp [digVal, decDigit?, h]
+  simp only [isAsciiDigit, decide_eq_true_eq] at h
+  have e : 48 + (c.toNat - 48) = c.toNat := by omega
+  simp only [ascOf, hv, e, Char.ofNat_toNat]
+
+def uniSpaceCodes : List Nat :=
+  [0x85, 0xa0, 0x1680, 0x2000, 0x2001, 0x2002, 0x2003, 0x2004, 0x2005, 0x2006, 0x2007, 0x2008, 0x2009, 0x200a, 0x2028, 0x2029,
+   0x202f, 0x205f, 0x3000]
+
+theorem uniSpaceCodes_not_digit : ∀ n ∈ uniSpaceCodes, decDigitN? n = none := by decide +kernel
+
+theorem dig_not_uniSpace {c : Char} (h : isDig c = true) : isUniSpace c = false := by
+  cases hs : isUniSpace c with
+  | false => rfl
+  | true =>
+    exfalso
+    have hm : c.toNat ∈ uniSpaceCodes := by
+      simp only [isUniSpace, decide_eq_true_eq] at hs
+      simp only [uniSpaceCodes, List.mem_cons, List.not_mem_nil, or_false]
+      omega
+    have := uniSpaceCodes_not_digit _ hm
+    rw [← decDigit?_eq] at this
+    simp [isDig, this] at h
+
+theorem pyTransform_fix {l : List Char} (h : ∀ c ∈ l, isDig c = true ∨ c.toNat < 128) : pyTransform l = some (l.map fixChar) := by
+  induction l with
+  | nil => rfl
+  | cons c cs ih =>
+    have ih' := ih (fun d hd => h d (List.mem_cons_of_mem _ hd))
+    by_cases ha : c.toNat < 128
+    · have hf : fixChar c = c := by
+        unfold fixChar
+        split
+        · rename_i hd; exact ascOf_of_ascii (ascii_of_isDig hd ha)
+        · rfl
+      simp [pyTransform, ha, ih', hf]
+    · have hd : isDig c = true := by
+        rcases h c (List.mem_cons_self ..) with hd | hd
+        · exact hd
+        · exact absurd hd ha
+      simp [pyTransform, ha, ih', dig_not_uniSpace hd, (digVal_lt hd).2, fixChar, hd, ascOf]
+
+/-- the literal `float()` sees: every digit replaced by its ASCII digit -/
+def ascTok (t : Tok) : Tok :=
+  ⟨t.sign, t.ip.map ascOf, t.frac.map (fun fp => fp.map ascOf), t.exp.map (fun e => ⟨e.upper, e.sign, e.digits.map ascOf⟩)⟩
+
+theorem map_fix_digs {l : List Char} (h : Digs l) : l.map fixChar = l.map ascOf :=
+  List.map_congr_left (fun c hc => by simp [fixChar, h c hc])
+
+theorem map_fix_sign (s : Sign) : s.text.map fixChar = s.text := by
+  cases s <;> simp [Sign.text, fixChar] <;> decide
+
+theorem text_fix {strict : Bool} {t : Tok} (h : TokWF strict t) : t.text.map fixChar = (ascTok t).text := by
+  obtain ⟨sign, ip, frac, exp⟩ := t
+  have h1 : (fracText frac).map fixChar = fracText (frac.map (fun fp => fp.map ascOf)) := by
+    cases frac with
+    | none => rfl
+    | some fp =>
+      have : fixChar '.' = '.' := by decide
+      simp [fracText, this, map_fix_digs (h.fp fp rfl)]
+  have h2 : (expText exp).map fixChar = expText (exp.map (fun e => ⟨e.upper, e.sign, e.digits.map ascOf⟩)) := by
+    cases exp with
+    | none => rfl
+    | some e =>
+      have he : fixChar 'e' = 'e' := by decide
+      have hE : fixChar 'E' = 'E' := by decide
+      simp only [expText, ExpPart.text, Option.map_some, List.map_cons, List.map_append, map_fix_sign,
+        map_fix_digs (h.exp e rfl).digs]
+      cases e.upper <;> simp [he, hE]
+  simp only [Tok.text, ascTok, List.map_append, map_fix_sign, map_fix_digs h.ip, h1, h2]
+
+theorem digs_map_asc {l : List Char} (h : Digs l) : AsciiDigs (l.map ascOf) := by
   intro c hc
-  rcases List.mem_append.mp hc with h | h
-  · exact ha c h
-  · exact hb c h
+  obtain ⟨d, hd, rfl⟩ := List.mem_map.mp hc
+  exact (ascOf_ascii (h d hd)).1
+
+theorem natOf_foldl_asc {l : List Char} (h : Digs l) (a : Nat) :
+    (l.map ascOf).foldl (fun a c => a * 10 + digVal c) a = l.foldl (fun a c => a * 10 + digVal c) a := by
+  induction l generalizing a with
+  | nil => rfl
+  | cons c l ih =>
+    simp only [List.map_cons, List.foldl_cons, (ascOf_ascii (h c (List.mem_cons_self ..))).2]
+    exact ih (fun d hd => h d (List.mem_cons_of_mem _ hd)) _
+
+theorem natOf_map_asc {l : List Char} (h : Digs l) : natOf (l.map ascOf) = natOf l := natOf_foldl_asc h 0
+
+theorem ascTok_ascii {strict : Bool} {t : Tok} (h : TokWF strict t) : TokAscii (ascTok t) := by
+  refine ⟨digs_map_asc h.ip, ?_, ?_⟩
+  · intro fp hfp
+    cases hf : t.frac with
+    | none => simp [ascTok, hf] at hfp
+    | some fp0 =>
+      simp only [ascTok, hf, Option.map_some, Option.some.injEq] at hfp
+      subst hfp; exact digs_map_asc (h.fp fp0 hf)
+  · intro e he
+    cases hx : t.exp with
+    | none => simp [ascTok, hx] at he
+    | some e0 =>
+      simp only [ascTok, hx, Option.map_some, Option.some.injEq] at he
+      subst he; exact digs_map_asc (h.exp e0 hx).digs
+
+theorem ascTok_wf {strict : Bool} {t : Tok} (h : TokWF strict t) : TokWF strict (ascTok t) := by
+  have ha := ascTok_ascii h
+  refine ⟨digs_of_ascii ha.ip, fun fp hfp => digs_of_ascii (ha.fp fp hfp), ?_, ?_⟩
+  · rcases h.someDigit with hh | ⟨hs, fp, hfp, hne⟩
+    · left; simpa [ascTok] using hh
+    · right; exact ⟨hs, fp.map ascOf, by simp [ascTok, hfp], by simpa using hne⟩
+  · intro e he
+    cases hx : t.exp with
+    | none => simp [ascTok, hx] at he
+    | some e0 =>
+      simp only [ascTok, hx, Option.map_some, Option.some.injEq] at he
+      have hw := h.exp e0 hx
+      subst he
+      exact ⟨digs_of_ascii (digs_map_asc hw.digs), by simpa using hw.ne, hw.strictE⟩
+
+theorem ascTok_val {strict : Bool} {t : Tok} (h : TokWF strict t) : (ascTok t).val = t.val := by
+  obtain ⟨sign, ip, frac, exp⟩ := t
+  have h1 : fracVal (frac.map (fun fp => fp.map ascOf)) = fracVal frac := by
+    cases frac with
+    | none => rfl
+    | some fp => simp [fracVal, natOf_map_asc (h.fp fp rfl)]
+  have h2 : expVal (exp.map (fun e => (⟨e.upper, e.sign, e.digits.map ascOf⟩ : ExpPart))) = expVal exp := by
+    cases exp with
+    | none => rfl
+    | some e => simp [expVal, ExpPart.val, natOf_map_asc (h.exp e rfl).digs]
+  simp only [Tok.val, ascTok, natOf_map_asc h.ip, h1, h2]
+
+/-- **`float()` never raises on what `_R_EXPR_NUMBER` matched**: on the text of a literal of the grammar — its digits any
+Unicode decimal digits — `float()` sees exactly that literal (`float('١٢.٥e+٣') == 12500.0`).  Generalises
+`C13.floatText_text` (ASCII digits). -/
+theorem floatText_text_uni {strict : Bool} {t : Tok} (h : TokWF strict t) (hs : TokWF false t) :
+    floatText (String.ofList t.text) = some (.fin t.val) := by
+  have hcs : ∀ c ∈ t.text, isDig c = true ∨ c.toNat < 128 := by
+    obtain ⟨sign, ip, frac, exp⟩ := t
+    intro c hc
+    simp only [Tok.text, List.mem_append] at hc
+    rcases hc with hc | hc | hc | hc
+    · right; cases sign <;> simp [Sign.text] at hc <;> (subst hc; decide)
+    · exact Or.inl (h.ip c hc)
+    · cases frac with
+      | none => simp [fracText] at hc
+      | some fp =>
+        simp [fracText] at hc
+        rcases hc with hc | hc
+        · right; subst hc; decide
+        · exact Or.inl (h.fp fp rfl c hc)
+    · cases exp with
+      | none => simp [expText] at hc
+      | some e =>
+        simp [expText, ExpPart.text] at hc
+        rcases hc with hc | hc | hc
+        · right; subst hc; cases e.upper <;> decide
+        · right; cases hsg : e.sign <;> simp [hsg, Sign.text] at hc <;> (subst hc; decide)
+        · exact Or.inl ((h.exp e rfl).digs c hc)
+  have h1 : pyTransform t.text = some (ascTok t).text := by rw [pyTransform_fix hcs, text_fix h]
+  have ha := ascTok_ascii h
+  have h1' : pyTransform (ascTok t).text = some (ascTok t).text :=
+    pyTransform_ascii (fun c hc => numChar_lt (numChars_text ha c hc))
+  have e : floatText (String.ofList t.text) = floatText (String.ofList (ascTok t).text) := by
+    simp only [floatText, floatBody, String.toList_ofList, h1, h1']
+  rw [e, floatText_text (ascTok_wf h) (ascTok_wf hs) ha, ascTok_val h]
 
 /-! ## the value -/
 
@@ -143,20 +369,15 @@ theorem arith (I F k : Nat) (z : Int) :
     grind
 
 /-- **one value**: the rational `ExprScan.decVal` computes from the pieces of a literal is the value `NumText.Tok.val`
-of the literal (ASCII digits) -/
-theorem val_bridge (sg : Sign) (ip : List Char) (fr : Option (List Char)) (ex : Option ExpPart)
-    (hip : AsciiDigs ip) (hfp : ∀ fp, fr = some fp → AsciiDigs fp) :
+of the literal (any characters: both sides read a non-digit as 0) -/
+theorem val_bridge (sg : Sign) (ip : List Char) (fr : Option (List Char)) (ex : Option ExpPart) :
     ExprScan.decVal (decide (sg = .minus)) ip (fr.getD []) (expVal ex) = Tok.val ⟨sg, ip, fr, ex⟩ := by
-  have hfa : AsciiDigs (fr.getD []) := by
-    cases fr with
-    | none => intro c hc; simp at hc
-    | some fp => exact hfp fp rfl
   have hfv : fracVal fr = (natOf (fr.getD []) : Rat) / (10 : Rat) ^ (fr.getD []).length := by
     cases fr with
     | none => simp [fracVal, natOf]; grind
     | some fp => rfl
   have hm : ExprScan.digitsVal (ip ++ fr.getD []) = natOf ip * 10 ^ (fr.getD []).length + natOf (fr.getD []) := by
-    rw [digitsVal_eq_natOf (asciiDigs_append hip hfa), natOf_append]
+    rw [digitsVal_eq_natOf, natOf_append]
   have key := arith (natOf ip) (natOf (fr.getD [])) (fr.getD []).length (expVal ex)
   simp only [Tok.val, hfv, ExprScan.decVal, hm]
   rw [← key]
@@ -178,82 +399,41 @@ theorem scanSign_bridge (l : List Char) :
       · simp [h1, h2]
       · simp [h1, h2]
 
-theorem scanSign_subset (l : List Char) : ∀ c ∈ (NumText.scanSign l).2, c ∈ l := by
-  intro c hc
-  generalize hsr : NumText.scanSign l = sr at hc
-  obtain ⟨s, r⟩ := sr
-  have := scanSign_sound hsr
-  rw [this]; simp at hc ⊢; exact Or.inr hc
-
-theorem scanFrac_bridge {l : List Char} (h : DigitsAscii l) :
+theorem scanFrac_bridge (l : List Char) :
     ExprScan.scanFrac l = (((NumText.scanFrac l).1).getD [], (NumText.scanFrac l).2) := by
   cases l with
   | nil => rfl
   | cons c r =>
     simp only [ExprScan.scanFrac, NumText.scanFrac]
     by_cases h1 : c = '.'
-    · simp [h1, tw_digits h.tail, dw_digits h.tail]
+    · simp [h1, tw_digits, dw_digits]
     · simp [h1]
 
-theorem scanFrac_ascii {l : List Char} (h : DigitsAscii l) : ∀ fp, (NumText.scanFrac l).1 = some fp → AsciiDigs fp := by
-  cases l with
-  | nil => intro fp hfp; simp [NumText.scanFrac] at hfp
-  | cons c r =>
-    intro fp hfp
-    simp only [NumText.scanFrac] at hfp
-    by_cases h1 : c = '.'
-    · simp [h1] at hfp; subst hfp; exact ascii_takeWhile h.tail
-    · simp [h1] at hfp
-
-theorem scanFrac_subset (l : List Char) : ∀ c ∈ (NumText.scanFrac l).2, c ∈ l := by
-  cases l with
-  | nil => intro c hc; simp [NumText.scanFrac] at hc
-  | cons d r =>
-    intro c hc
-    simp only [NumText.scanFrac] at hc
-    by_cases h1 : d = '.'
-    · simp [h1] at hc
-      exact List.mem_cons_of_mem _ ((List.dropWhile_sublist isDig).subset hc)
-    · simpa [h1] using hc
-
-theorem scanExp_bridge {l : List Char} (h : DigitsAscii l) :
+theorem scanExp_bridge (l : List Char) :
     ExprScan.scanExp l = (expVal (NumText.scanExp true l).1, (NumText.scanExp true l).2) := by
-  match l, h with
-  | [], _ => rfl
-  | [c], _ =>
+  match l with
+  | [] => rfl
+  | [c] =>
     simp only [ExprScan.scanExp, NumText.scanExp]
     by_cases hc : c = 'e'
     · simp [hc, NumText.scanSign, expVal]
     · simp [hc, expVal]
-  | c :: s :: r, h =>
-    have hr : DigitsAscii r := h.tail.tail
+  | c :: s :: r =>
     simp only [ExprScan.scanExp, NumText.scanExp]
     by_cases hc : c = 'e'
     · subst hc
       by_cases hp : s = '+'
       · subst hp
-        have hasc := ascii_takeWhile hr
         by_cases hne : r.takeWhile isDig = []
-        · simp [NumText.scanSign, tw_digits hr, dw_digits hr, hne, expVal]
-        · simp [NumText.scanSign, tw_digits hr, dw_digits hr, hne, expVal, ExpPart.val, digitsVal_eq_natOf hasc]
+        · simp [NumText.scanSign, tw_digits, dw_digits, hne, expVal]
+        · simp [NumText.scanSign, tw_digits, dw_digits, hne, expVal, ExpPart.val, digitsVal_eq_natOf]
       · by_cases hm : s = '-'
         · subst hm
-          have hasc := ascii_takeWhile hr
           by_cases hne : r.takeWhile isDig = []
-          · simp [NumText.scanSign, tw_digits hr, dw_digits hr, hne, expVal]
-          · simp [NumText.scanSign, tw_digits hr, dw_digits hr, hne, expVal, ExpPart.val, digitsVal_eq_natOf hasc]
+          · simp [NumText.scanSign, tw_digits, dw_digits, hne, expVal]
+          · simp [NumText.scanSign, tw_digits, dw_digits, hne, expVal, ExpPart.val, digitsVal_eq_natOf]
         · simp [NumText.scanSign, hp, hm, expVal]
     · simp [hc, expVal]
-
-theorem scanExp_ascii {l : List Char} (h : DigitsAscii l) : ∀ e, (NumText.scanExp true l).1 = some e → AsciiDigs e.digits := by
-  intro e he
-  generalize hsr : NumText.scanExp true l = sr at he
-  obtain ⟨eo, r⟩ := sr
-  simp only at he; subst he
-  obtain ⟨hl, hw⟩ := scanExp_sound hsr
-  intro c hc
-  apply h c _ ((hw e rfl).digs c hc)
-  rw [hl]; simp [expText, ExpPart.text, hc]
 
 /-! ## the whole literal -/
 
@@ -271,30 +451,25 @@ theorem scanNumber_eq_numCore (t : List Char) : ExprScan.scanNumber t = numCore 
   show numCore (ExprScan.skipWs t) = _
   rw [ExprScan.skipWs, isPySpace_fun]
 
-/-- **one scanner**: on a text whose `\d` characters are ASCII digits the hand-written number scanner of the expression
-parser model returns the value of the literal C13's model of `_R_EXPR_NUMBER` matches, and the same rest -/
-theorem numCore_eq_scanTok {l : List Char} (h : DigitsAscii l) :
+/-- **one scanner**: on EVERY text the hand-written number scanner of the expression parser model returns the value of the
+literal C13's model of `_R_EXPR_NUMBER` matches, and the same rest -/
+theorem numCore_eq_scanTok (l : List Char) :
     numCore l = (scanTok true l).map (fun p => (p.1.val, p.2)) := by
   unfold numCore scanTok
   rw [scanSign_bridge l]
-  have h1 : DigitsAscii (NumText.scanSign l).2 := h.of_subset (scanSign_subset l)
-  generalize NumText.scanSign l = sr at h1
+  generalize NumText.scanSign l = sr
   obtain ⟨sg, t1⟩ := sr
-  simp only at h1 ⊢
-  have h2 : DigitsAscii (t1.dropWhile isDig) := h1.dropWhile _
-  rw [tw_digits h1, dw_digits h1, scanFrac_bridge h2]
-  have hfa := scanFrac_ascii h2
-  have h3 : DigitsAscii (NumText.scanFrac (t1.dropWhile isDig)).2 := h2.of_subset (scanFrac_subset _)
-  generalize NumText.scanFrac (t1.dropWhile isDig) = fr at hfa h3
+  simp only
+  rw [tw_digits, dw_digits, scanFrac_bridge]
+  generalize NumText.scanFrac (t1.dropWhile isDig) = fr
   obtain ⟨fo, t3⟩ := fr
-  simp only at hfa h3 ⊢
-  rw [scanExp_bridge h3]
-  have hea := scanExp_ascii h3
-  generalize NumText.scanExp true t3 = er at hea
+  simp only
+  rw [scanExp_bridge]
+  generalize NumText.scanExp true t3 = er
   obtain ⟨eo, t4⟩ := er
-  simp only at hea ⊢
+  simp only
   by_cases hip : t1.takeWhile isDig = []
   · simp [hip]
-  · simp [hip, val_bridge sg _ fo eo (ascii_takeWhile h1) hfa]
+  · simp [hip, val_bridge sg _ fo eo]
 
 end C13Bridge
